@@ -26,6 +26,18 @@ package dispatcher
 //@   loop 0 invariant[C01] transferAttr.destinationCoin.Denom == old(transferAttr.destinationCoin.Denom) || bal(bank, orb(), old(transferAttr.destinationCoin.Denom)) == 0
 //@   loop 0 invariant[C01] orbNoGainExcept(transferAttr.destinationCoin.Denom)
 //@   ensures[C06] err == nil ==> disp_act_n == old(disp_act_n) + len(actions)
+//   C02/C11: the ledger after the actions is the closed form of the listed actions applied in order to
+//   the incoming amount (at most two actions: identifiers are pairwise distinct).
+//@   requires[C02,C11] len(actions) <= 2
+//@   letold A0 = val(transferAttr.destinationCoin.Amount)
+//@   letold D0 = transferAttr.destinationCoin.Denom
+//@   loop 0 invariant[C02,C11] idx <= 2 && transferAttr.destinationCoin.Denom == D0 && !isnil(transferAttr.destinationCoin.Amount)
+//@   loop 0 invariant[C02,C11] idx == 0 ==> bank == old(bank) && val(transferAttr.destinationCoin.Amount) == A0
+//@   loop 0 invariant[C02,C11] idx == 1 ==> actOK(A0, actions[0]) && bank == actStep(old(bank), A0, D0, actions[0]) && val(transferAttr.destinationCoin.Amount) == actAmt(A0, actions[0])
+//@   loop 0 invariant[C02,C11] idx == 2 ==> actOK(A0, actions[0]) && actOK(actAmt(A0, actions[0]), actions[1]) && bank == actStep(actStep(old(bank), A0, D0, actions[0]), actAmt(A0, actions[0]), D0, actions[1]) &&
+//@                               val(transferAttr.destinationCoin.Amount) == actAmt(actAmt(A0, actions[0]), actions[1])
+//@   ensures[C02,C11] err == nil ==> actsOKN(A0, actions, len(actions)) && bank == actsStepN(old(bank), A0, D0, actions, len(actions))
+//@   ensures[C02,C11] err == nil ==> transferAttr.destinationCoin.Denom == D0 && !isnil(transferAttr.destinationCoin.Amount) && val(transferAttr.destinationCoin.Amount) == actsAmtN(A0, actions, len(actions))
 //@   requires[C01] bankNonneg(bank)
 //@   ensures[C01] err == nil ==> bankNonneg(bank)
 //@   ensures[C01] err == nil ==> transferAttr.destinationCoin.Denom == old(transferAttr.destinationCoin.Denom) || bal(bank, orb(), old(transferAttr.destinationCoin.Denom)) == 0
@@ -44,6 +56,9 @@ package dispatcher
 //@   requires[C01] bankNonneg(bank)
 //@   ensures[C01] err == nil ==> bankNonneg(bank)
 //@   ensures[C01] err == nil ==> bal(bank, orb(), transferAttr.destinationCoin.Denom) == 0 && orbNoGainExcept(transferAttr.destinationCoin.Denom)
+//@   ensures[C02,C11] err == nil ==> forwarding.Attributes != nil && fwdAttrKnown(forwarding.Attributes.cachedValue) &&
+//@                      bank == fwdLedger(old(bank), transferAttr.destinationCoin.Denom, val(transferAttr.destinationCoin.Amount), forwarding.Attributes.cachedValue) &&
+//@                      val(transferAttr.destinationCoin.Amount) > 0 && bal(old(bank), orb(), transferAttr.destinationCoin.Denom) == val(transferAttr.destinationCoin.Amount)
 
 // The whole dispatch: a payload with a repeated (or otherwise invalid) action list is refused before
 // anything runs; on success every action ran once, in order, on the shared attributes, and the
